@@ -1,4 +1,5 @@
 """C15 — whatever the scanner writes, the typelib compiler accepts."""
+import glob
 import json
 import os
 import random
@@ -8,9 +9,12 @@ import subprocess
 import sys
 import tempfile
 
-from common import Check, coq_eval, parse_defs, parse_nlist, cstr, clist, cbool, copt, c_build, c_driver, CBUILD, ROOT, run
+from common import Check, coq_eval, parse_defs, parse_nlist, cstr, clist, cbool, copt, c_build, c_driver, CBUILD, ROOT, REPO, run
 
 HERE = os.path.dirname(os.path.abspath(__file__))
+SHIPPED_EXTRA = ('<callback name="Callback" c:type="GCallback"><return-value transfer-ownership="none"><type name="none" c:type="void"/>'
+                 '</return-value></callback><record name="InitiallyUnownedClass" c:type="GInitiallyUnownedClass"/>'
+                 '<record name="TypeInstance" c:type="GTypeInstance"/><record name="TypeClass" c:type="GTypeClass"/>')
 STUBGIR = os.path.join(HERE, 'stubgir')
 
 
@@ -47,7 +51,46 @@ def scanner_girs(rng, n_each):
     for b in range(n_each):
         w = c16.gen_world(rng, b)
         out.append(('declaration world #%d' % b, c16_run.build(w), w['includes']))
+    import c07
+    for b in range(n_each):
+        out.append(('constants and members world #%d' % b, misc_world(rng, S, c07), ['GLib', 'GObject']))
+        out.append(('structure members world #%d' % b, c07.field_world(rng, S, ET), ['GLib', 'GObject']))
     return out
+
+
+CONST_TYPES = ['gint', 'guint', 'gint8', 'guint8', 'gint16', 'guint16', 'gint32', 'guint32', 'gint64', 'guint64', 'glong', 'gulong', 'gshort',
+               'gushort', 'gchar', 'guchar', 'gsize', 'gssize', 'gintptr', 'guintptr', 'gboolean', 'gfloat', 'gdouble', 'gunichar', 'GType',
+               'time_t', 'off_t', 'gpointer', 'void*', 'gchar*', 'FooNope', 'FooMiscEnum', None]
+
+
+def misc_world(rng, S, c07):
+    """constants cast to every kind of type (numeric, gunichar, GType, pointers, an enumeration, an unknown type), string/boolean/double
+    constants, structures with anonymous and function-pointer members, and a union with a function-pointer member"""
+    syms = [S.enum_typedef('FooMiscEnum', [('FOO_MISC_ENUM_A', 0, False), ('FOO_MISC_ENUM_B', 1, False)])]
+    for i in range(rng.randint(3, 10)):
+        t = rng.choice(CONST_TYPES)
+        bt = None if t is None else S.ptr(S.VOID) if t == 'void*' else S.ptr(S.td('gchar')) if t == 'gchar*' else S.td(t)
+        k = rng.random()
+        if k < 0.7:
+            syms.append(S.const('FOO_MK%d' % i, bt, const_int=rng.choice([0, 1, -1, 127, 255, 8364, 65536, 2 ** 31, 2 ** 32 - 1, -2 ** 31, 2 ** 63 - 1]), line=50 + i))
+        elif k < 0.8:
+            syms.append(S.const('FOO_MK%d' % i, None, const_string=rng.choice(['', 'text', 'a "q" <&>', '\u20ac']), line=50 + i))
+        elif k < 0.9:
+            syms.append(S.const('FOO_MK%d' % i, None, const_boolean=rng.random() < 0.5, line=50 + i))
+        else:
+            syms.append(S.const('FOO_MK%d' % i, None, const_double=rng.choice([0.0, 1.5, -2.25e10]), line=50 + i))
+    line = 100
+    for r in range(rng.randint(0, 2)):
+        kids = [S.FS(S.CSYMBOL_TYPE_MEMBER, 'a', base_type=S.td('gint'), line=line)]
+        if rng.random() < 0.6:
+            kids.append(S.FS(S.CSYMBOL_TYPE_MEMBER, 'cb', base_type=S.ptr(S.FT(S.CTYPE_FUNCTION, base_type=S.VOID,
+                                                                                child_list=[S.param('x', S.td('gint'))])), line=line + 1))
+        kids.append(S.FS(S.CSYMBOL_TYPE_MEMBER, 'd', base_type=S.td('gdouble'), line=line + 2))
+        syms.append(S.FS(S.CSYMBOL_TYPE_TYPEDEF, 'FooMiscU%d' % r, base_type=S.FT(S.CTYPE_UNION, '_FooMiscU%d' % r), line=line + 3))
+        syms.append(S.FS(S.CSYMBOL_TYPE_UNION, '_FooMiscU%d' % r, base_type=S.FT(S.CTYPE_UNION, '_FooMiscU%d' % r, child_list=kids), line=line + 4))
+        line += 10
+    r = S.run(syms, includes=['GLib', 'GObject'], warnings=False)
+    return r.xml
 
 
 def vfunc_world(rng, S, ET):
@@ -150,14 +193,15 @@ def gir_callables(root, S):
 
     def walk(el, parent, depth):
         for ch in el:
-            if ch.get('introspectable') == '0':
+            if ch.get('introspectable') == '0' or ch.get('shadowed-by') is not None:
                 continue
             if ch.tag in KIND:
-                path = '%s/%s:%s' % (parent, KIND[ch.tag], ch.get('name'))
+                # a function that shadows another one is exposed under that one's name
+                path = '%s/%s:%s' % (parent, KIND[ch.tag], ch.get('shadows') or ch.get('name'))
                 ps = ch.find(S.CORE + 'parameters')
                 calls[path] = (ch.find(S.CORE + 'return-value'), list(ps.findall(S.CORE + 'parameter')) if ps is not None else [], ch)
                 if depth == 0:
-                    top.add(ch.get('name'))
+                    top.add(ch.get('shadows') or ch.get('name'))
             elif ch.tag == S.CORE + 'field' and depth > 0:
                 cb = ch.find(S.CORE + 'callback')
                 if cb is not None and cb.get('introspectable') != '0':
@@ -201,33 +245,59 @@ def main(tier, seed):
     items = []
     cases = []
     try:
-        for n in ('GLib-2.0', 'GObject-2.0', 'Gio-2.0', 'Base-1.0', 'Mid-1.0'):
-            rc, o = run([compiler, '--includedir', STUBGIR, os.path.join(STUBGIR, n + '.gir'), '-o', os.path.join(tmp, n + '.typelib')])
+        # include directory: the stub GIRs (the GObject stub completed with the four names the shipped Regress GIR refers to),
+        # the hand-written gir/cairo-1.0.gir.in, and the shipped expected GIRs under their namespace names
+        inc = os.path.join(tmp, 'inc')
+        os.mkdir(inc)
+        for f in os.listdir(STUBGIR):
+            text = open(os.path.join(STUBGIR, f)).read()
+            if f == 'GObject-2.0.gir':
+                text = text.replace('</namespace>', SHIPPED_EXTRA + '</namespace>')
+            open(os.path.join(inc, f), 'w').write(text)
+        shutil.copy(os.path.join(REPO, 'gir', 'cairo-1.0.gir.in'), os.path.join(inc, 'cairo-1.0.gir'))
+        shipped = []
+        for f in sorted(glob.glob(os.path.join(REPO, 'tests', 'scanner', '*-expected.gir'))):
+            n = os.path.basename(f)[:-len('-expected.gir')]
+            shutil.copy(f, os.path.join(inc, n + '.gir'))
+            shipped.append(('shipped ' + os.path.basename(f), open(f, encoding='utf-8').read(), None, n))
+        for n in ('GLib-2.0', 'GObject-2.0', 'Gio-2.0', 'Base-1.0', 'Mid-1.0', 'cairo-1.0', 'Utility-1.0'):
+            rc, o = run([compiler, '--includedir', inc, os.path.join(inc, n + '.gir'), '-o', os.path.join(tmp, n + '.typelib')])
             if rc != 0:
                 ck.tie_broken('harness', 'cannot compile the stub dependency %s: %s' % (n, o[-500:]))
         try:
-            girs = scanner_girs(rng, 4 if tier == 'quick' else 40)
+            girs = [g + ('Foo-1.0',) for g in scanner_girs(rng, 4 if tier == 'quick' else 40)]
         except (Exception, SystemExit) as e:      # noqa
             ck.tie_broken('correspondence', 'the scanner fails on a generated world: %r' % (e,))
             girs = []
-        for what, xml, incs in girs:
-            gir = os.path.join(tmp, 'Foo-1.0.gir')
-            tl = os.path.join(tmp, 'Foo-1.0.typelib')
-            open(gir, 'w').write(xml)
-            p = subprocess.run([compiler, '--includedir', STUBGIR, gir, '-o', tl], capture_output=True, text=True, timeout=300)
+        for what, xml, incs, nsv in girs + shipped:
+            work = os.path.join(tmp, 'w')
+            shutil.rmtree(work, ignore_errors=True)
+            os.mkdir(work)
+            gir = os.path.join(work, nsv + '.gir')
+            tl = os.path.join(tmp, nsv + '.typelib')
+            open(gir, 'w', encoding='utf-8').write(xml)
+            p = subprocess.run([compiler, '--includedir', inc, gir, '-o', tl], capture_output=True, text=True, timeout=300)
             root = ET.fromstring(xml)
+            if what.startswith('shipped') and p.returncode != 0 and re.search(r"Can't resolve type '(GLib|GObject|Gio|cairo)\.", p.stdout + p.stderr):
+                # an include that the stub GIRs do not satisfy: outside the property's quantifier
+                ck.extra.setdefault('shipped_girs_with_unsatisfied_includes', []).append(what)
+                continue
             gtop, gcalls = gir_callables(root, S)
             ck.count_case(dict(world=what, callables=len(gcalls), top=len(gtop)), nontrivial=len(gcalls) > 3, kind=what.split('#')[0].strip())
             if p.returncode != 0 or p.stdout.strip() or p.stderr.strip():
+                # known finding C15-K1: only a union that has a function-pointer member, refused with exactly the reader's message
+                k1 = 'element callback from state 27 is unknown' in p.stderr and 'Caught NULL node' in p.stderr \
+                    and any(f.find(S.CORE + 'callback') is not None for u in root.iter(S.CORE + 'union') for f in u.findall(S.CORE + 'field'))
                 ck.failing_input('the typelib compiler does not accept a GIR written by the scanner silently (rc=%d)' % p.returncode,
-                                 dict(world=what, gir=xml), detail=(p.stdout + p.stderr)[-1500:])
+                                 dict(world=what, gir=xml), detail=(p.stdout + p.stderr)[-1500:],
+                                 fid='C15-K1-union-with-function-pointer-member' if k1 else None)
                 if p.returncode != 0:
                     continue
             v = subprocess.run([val, tl], capture_output=True, text=True, timeout=120)
             if v.returncode != 0:
                 ck.failing_input('the typelib compiled from a scanner GIR does not validate', dict(world=what, gir=xml), detail=v.stdout[-500:])
                 continue
-            q = subprocess.run([exe, tmp, 'Foo'], capture_output=True, text=True, timeout=120)
+            q = subprocess.run([exe, tmp, nsv.split('-')[0]], capture_output=True, text=True, timeout=120)
             if q.returncode != 0:
                 ck.failing_input('the typelib compiled from a scanner GIR cannot be walked (rc=%d)' % q.returncode, dict(world=what, gir=xml),
                                  detail=(q.stdout[-300:] + q.stderr[-300:]))
